@@ -856,6 +856,8 @@ func (vm *vm) handleThrow(arg interface{}) *Exception {
 			vm.discardStacks(tf.iterLen, tf.refLen)
 		} else {
 			_ = vm.restoreStacks(tf.iterLen, tf.refLen)
+			// restoreStacks() closes iterators, i.e. runs script code that may grow (reallocate) the try stack
+			tf = &vm.tryStack[len(vm.tryStack)-1]
 		}
 
 		if tf.catchPos == tryPanicMarker {
